@@ -140,4 +140,26 @@ theorem block_segs_chars (o : Opts) (hstore : o.store = true) (hmfd : o.maxFrame
     simp only [List.length_append, List.length_cons]
     omega
 
+/-! ### nesting contexts: token counts and fuel -/
+
+theorem nestToks_length : ∀ (ctx : List Level) (T : List TokSpec), nestShift ctx + T.length ≤ (nestToks ctx T).length
+  | [], T => by simp [nestShift, nestToks]
+  | L :: r, T => by
+    have := nestToks_length r T
+    simp only [nestShift, nestToks, List.length_append, List.length_cons, List.length_nil]
+    omega
+
+theorem nest_fuel : ∀ (ctx : List Level) (T : List TokSpec) (k need c : Nat), k + need ≤ 2 * T.length + c →
+    nestK ctx k + nestNeed ctx need k ≤ 2 * (nestToks ctx T).length + c
+  | [], T, k, need, c, h => by simpa [nestK, nestNeed, nestToks] using h
+  | L :: r, T, k, need, c, h => by
+    have ih := nest_fuel r T k need c h
+    have h1 := WriterChunks.szElems_toks L.pre
+    have h2 := WriterChunks.szElems_toks L.post
+    have e1 : nestK (L :: r) k = L.post.length + (1 + L.pre.length) := rfl
+    have e2 : nestNeed (L :: r) need k = szElems L.pre + (nestNeed r need k + nestK r k + 2) + szElems L.post := rfl
+    rw [e1, e2]
+    simp only [nestToks, List.length_append, List.length_cons, List.length_nil]
+    omega
+
 end CifModel.Lemmas.DefectChars
